@@ -86,7 +86,7 @@ func sgOutcomes(P *Program, fn *ssa.Function, depth int) ([]sgOutcome, bool) {
 				callee := call.Call.StaticCallee()
 				if isSchemaErrSig(P, callee.Signature) {
 					// same type handed on: inline the callee's outcomes; element type: "=elem"
-					if len(call.Call.Args) == 1 && len(fn.Params) >= 1 && call.Call.Args[0] == ssa.Value(fn.Params[0]) {
+					if tpC, tpF := reflectTypeParamIdx(callee), reflectTypeParamIdx(fn); tpC >= 0 && tpF >= 0 && tpC < len(call.Call.Args) && call.Call.Args[tpC] == ssa.Value(fn.Params[tpF]) {
 						// error-propagating return: only the success half matters; the callee decides
 						sub, ok := sgOutcomes(P, callee, depth+1)
 						if !ok {
@@ -179,7 +179,7 @@ type schemaTable struct {
 }
 
 func schemaTableOf(P *Program) *schemaTable {
-	t := &schemaTable{fn: P.Func(P.Avro, "schemaForType"), rows: map[string]map[string]bool{}}
+	t := &schemaTable{fn: schemaWorkerFn(P), rows: map[string]map[string]bool{}}
 	if t.fn == nil {
 		return t
 	}
@@ -444,7 +444,7 @@ func ruleSGNull(c *Ctx) {
 func ruleSGOrder(c *Ctx) {
 	c.Rule("SG-ORDER", "record fields are the struct's fields in declaration order, one per non-excluded field, named and typed from that same field", 4)
 	P := c.P
-	fn := P.Func(P.Avro, "schemaForStruct")
+	fn := schemaStructFn(P)
 	if !c.Anchor(fn != nil, "schemaForStruct") {
 		return
 	}
@@ -475,7 +475,7 @@ func ruleSGOrder(c *Ctx) {
 			fieldCall = cs.Value()
 		case cs.Static != nil && cs.Static.Name() == "nameForField":
 			nameCall = cs.Value()
-		case cs.Static != nil && cs.Static.Name() == "schemaForType":
+		case cs.Static != nil && isSchemaEntry(P, cs.Static):
 			sftCall = cs.Value()
 		}
 		if bi, ok := cs.Common.Value.(*ssa.Builtin); ok && bi.Name() == "append" {
@@ -512,7 +512,7 @@ func ruleSGOrder(c *Ctx) {
 }
 
 func schemaGenFuncs(P *Program) []*ssa.Function {
-	roots := []*ssa.Function{P.Func(P.Avro, "SchemaForType"), P.Func(P.Avro, "schemaForType")}
+	roots := []*ssa.Function{P.Func(P.Avro, "SchemaForType"), schemaWorkerFn(P)}
 	seen := map[*ssa.Function]bool{}
 	var out []*ssa.Function
 	var walk func(f *ssa.Function)
@@ -599,7 +599,7 @@ func ruleSGRec(c *Ctx) {
 		color[f] = 2
 		return false
 	}
-	root := P.Func(P.Avro, "schemaForType")
+	root := schemaWorkerFn(P)
 	if !c.Anchor(root != nil, "schemaForType") {
 		return
 	}
@@ -692,7 +692,7 @@ func ruleSGRec(c *Ctx) {
 func ruleSGNames(c *Ctx) {
 	c.Rule("SG-NAMES", "schema generation and record-codec construction obtain field names and the omit flag from the same two helpers, applied to the struct's own fields", 4)
 	P := c.P
-	sfs, brc := P.Func(P.Avro, "schemaForStruct"), P.Func(P.Avro, "buildRecordCodec")
+	sfs, brc := schemaStructFn(P), P.Func(P.Avro, "buildRecordCodec")
 	if !c.Anchor(sfs != nil && brc != nil, "schemaForStruct and the record codec builder") {
 		return
 	}
@@ -897,4 +897,118 @@ func ruleOMShape(c *Ctx) {
 			c.OK(key, pos, "true only under omitEmpty and a zero test of *p / a nil or invalid test of *p")
 		}
 	}
+}
+
+// ---------- the schema generator's functions by role
+
+var schemaRoleCache = map[*Program][2]*ssa.Function{}
+
+func schemaRoles(P *Program) (worker, structFn *ssa.Function) {
+	if r, ok := schemaRoleCache[P]; ok {
+		return r[0], r[1]
+	}
+	bestN := 0
+	for _, fn := range P.ModuleFuncs() {
+		if fn.Pkg != P.Avro || fn.Parent() != nil || fn.Blocks == nil {
+			continue
+		}
+		res := fn.Signature.Results()
+		if res.Len() != 2 || typeKey(res.At(0).Type()) != "avro.Schema" || !isErrorType(res.At(1).Type()) {
+			continue
+		}
+		var typ *ssa.Parameter
+		for _, p := range fn.Params {
+			if isReflectType(p.Type()) {
+				typ = p
+			}
+		}
+		if typ == nil {
+			continue
+		}
+		// kinds the function compares typ.Kind() with
+		kinds := map[int64]bool{}
+		hasField, hasNumField := false, false
+		for _, cs := range callsIn(fn) {
+			if cs.Iface == nil || cs.Common.Value != ssa.Value(typ) || cs.Value() == nil {
+				continue
+			}
+			switch cs.Iface.Name() {
+			case "Kind":
+				for _, r := range referrersOf(cs.Value()) {
+					if bo, ok := r.(*ssa.BinOp); ok && bo.Op == token.EQL {
+						if k, isK := constInt(bo.Y); isK {
+							kinds[k] = true
+						}
+					}
+				}
+			case "Field":
+				hasField = true
+			case "NumField":
+				hasNumField = true
+			}
+		}
+		if len(kinds) >= 5 && len(kinds) > bestN {
+			worker, bestN = fn, len(kinds)
+		}
+		if hasField && hasNumField {
+			structFn = fn
+		}
+	}
+	schemaRoleCache[P] = [2]*ssa.Function{worker, structFn}
+	return
+}
+
+// schemaWorkerFn: the function that maps a Go type to its schema by a switch
+// over the type's kind (schemaForType on the pinned tree).
+func schemaWorkerFn(P *Program) *ssa.Function { w, _ := schemaRoles(P); return w }
+
+// schemaStructFn: the function that builds a record schema by looping over
+// the struct's fields (schemaForStruct on the pinned tree).
+func schemaStructFn(P *Program) *ssa.Function { _, s := schemaRoles(P); return s }
+
+// isSchemaEntry: fn is the worker, or a wrapper that only calls it and
+// returns what it returns.
+func isSchemaEntry(P *Program, fn *ssa.Function) bool {
+	w := schemaWorkerFn(P)
+	if fn == nil || w == nil {
+		return false
+	}
+	if fn == w {
+		return true
+	}
+	if len(fn.Blocks) != 1 {
+		return false
+	}
+	var inner *ssa.Call
+	for _, cs := range callsIn(fn) {
+		if cs.Static == w && cs.Value() != nil {
+			inner = cs.Value()
+		} else if cs.Static != nil && P.isModuleFunc(cs.Static) {
+			return false
+		}
+	}
+	if inner == nil {
+		return false
+	}
+	rs := returnsOf(fn)
+	if len(rs) != 1 {
+		return false
+	}
+	for i, v := range resolvedResults(rs[0]) {
+		ex, ok := v.(*ssa.Extract)
+		if !ok || ex.Tuple != ssa.Value(inner) || ex.Index != i {
+			return false
+		}
+	}
+	return true
+}
+
+// reflectTypeParamIdx: the index of fn's (first) reflect.Type parameter, -1 if none.
+func reflectTypeParamIdx(fn *ssa.Function) int {
+	for i, p := range fn.Params {
+		if isReflectType(p.Type()) {
+			return i
+		}
+	}
+	return -1
 }
